@@ -27,6 +27,8 @@ import (
 
 	"verif/lib/ev"
 	"verif/lib/explore"
+	"verif/lib/loopworld"
+	"verif/lib/xrun"
 	"verif/lib/par"
 	"verif/lib/sched"
 	"verif/lib/world"
@@ -420,6 +422,20 @@ func runOnce(sc scenario, ctx *explore.Ctx, viols *[]violRec) string {
 	return outcome
 }
 
+// part (d): cancellation of the real sync loop at every decision point.
+func runLoop(param json.RawMessage, ctx *explore.Ctx, viols *[]xrun.Viol) string {
+	var cfg loopworld.Cfg
+	_ = json.Unmarshal(param, &cfg)
+	res := loopworld.Run(cfg, ctx)
+	for _, v := range res.Viols {
+		if strings.HasPrefix(v.Sig, "c03:") || strings.HasPrefix(v.Sig, "c09:") || strings.HasPrefix(v.Sig, "c10:") {
+			continue
+		}
+		*viols = append(*viols, xrun.Viol{Sig: v.Sig, Msg: v.Msg})
+	}
+	return res.Outcome
+}
+
 var thorough = os.Getenv("VERIF_C17_THOROUGH") != ""
 
 // boundOf: two-thread scenarios are explored completely; with three threads the preemption bound is 2 (quick) / 3 (thorough).
@@ -455,7 +471,7 @@ func handle(b []byte) []byte {
 
 func main() {
 	flag.Parse()
-	par.ServeIfWorker(map[string]par.Handler{"x": handle})
+	par.ServeIfWorker(map[string]par.Handler{"x": handle, "loop": xrun.Handler(runLoop)})
 	if dbg := os.Getenv("VERIF_DEBUG_SCENARIO"); dbg != "" {
 		var si int
 		fmt.Sscan(dbg, &si)
@@ -557,6 +573,15 @@ func main() {
 		part.Distinct = int64(len(outcomes))
 		part.Bound = fmt.Sprintf("preemption bound %d (1000 = all interleavings of the hooked operations); outcomes %v", boundOf(sc), outcomes)
 		r.AddPart(part)
+	}
+	for _, native := range []bool{true, false} {
+		name := map[bool]string{true: "cancel-sync-loop/native", false: "cancel-sync-loop/shadow"}[native]
+		if r.Expired() {
+			r.AddPart(&ev.Part{Name: name, Engine: "E3", Exhaustive: false, Bound: "not started: time budget used up"})
+			continue
+		}
+		xrun.Explore(r, name, xrun.Opts{Kind: "loop", Bound: ev.Pick(r, 2, 3), Budget: 30, Recycle: 4,
+			Param: loopworld.Cfg{Native: native, Cancel: true, ListFaults: true, LoadFaults: true, StoreFaults: 1, Remote2: true, AppPoints: []string{"none"}}})
 	}
 	r.Finish()
 }
